@@ -209,3 +209,34 @@ func VerifC04_NonASCIIStrings() {
 	}
 	zzverif.Reach("nonascii")
 }
+
+// The recursion guard leaves no residue: after any number of evaluations that
+// ran into the depth limit (through entry points that share the
+// interpreter-wide counter: ExecuteRouteSimple, EvaluateExpression), a trivial
+// evaluation on the same interpreter still succeeds. The depth limit is scaled
+// down by the check configuration so that a few overflows would exhaust it.
+func VerifC04_DepthGuardNoResidue() {
+	in := interpreter.NewInterpreter()
+	fn := &ast.Function{Name: "f", Body: []ast.Statement{ast.ReturnStatement{Value: ast.FunctionCallExpr{Name: "f"}}}}
+	deep := routeOf(ret(ast.FunctionCallExpr{Name: "f"}))
+	in.LoadModule(ast.Module{Items: []ast.Item{fn, deep}})
+	n := 1 + zzverif.Choice("overflows", 3)*6 // 1, 7 or 13 over-deep requests
+	entry := zzverif.Choice("entry", 2)
+	for k := 0; k < n; k++ {
+		zzverif.Obligation("over-deep evaluation ends")
+		var err error
+		if entry == 0 {
+			_, err = in.ExecuteRouteSimple(deep, nil)
+		} else {
+			_, err = in.EvaluateExpression(ast.FunctionCallExpr{Name: "f"}, interpreter.NewEnvironment())
+		}
+		zzverif.Assert(err != nil, "unbounded-recursion-returned-a-value")
+	}
+	x := zzverif.Int64("x")
+	v, err := in.EvaluateExpression(ast.BinaryOpExpr{Op: ast.Add, Left: ast.LiteralExpr{Value: ast.IntLiteral{Value: x}}, Right: ast.LiteralExpr{Value: ast.IntLiteral{Value: 1}}}, interpreter.NewEnvironment())
+	zzverif.Assert(err == nil && v == interface{}(x+1), "trivial evaluation fails after earlier over-deep evaluations")
+	plain := routeOf(ret(ast.LiteralExpr{Value: ast.IntLiteral{Value: 5}}))
+	r, err2 := in.ExecuteRouteSimple(plain, nil)
+	zzverif.Assert(err2 == nil && r == interface{}(int64(5)), "trivial route fails after earlier over-deep evaluations")
+	zzverif.Reach("depth-residue")
+}
